@@ -586,6 +586,10 @@ class Table(object):
       self._add_special_col(helper_col)
     return helper_col
 
+  def get_sorted_lookup_helpers(self, lookup_map):
+    return [c for (_, c) in sorted(self._special_cols.items())
+            if isinstance(c, lookup.SortedLookupMapColumn) and c.lookup_col is lookup_map]
+
   def delete_column(self, col_obj):
     assert col_obj.table_id == self.table_id
     self._special_cols.pop(col_obj.col_id, None)
